@@ -143,13 +143,13 @@ static Verdict exec_history(const Subject &s, const std::vector<Op> &ops, const 
 
         if(op.name == "decode-prefix") {
             auto it = s.enc.find(sy);
-            if(!(st == S_NULL || st == S_FRESH) || it == s.enc.end() || sy == SY_UPER) continue;
+            if(!(st == S_NULL || st == S_FRESH) || it == s.enc.end()) continue;
             curE = it->second; cur_sy = sy;
             size_t cut = curE.empty() ? 0 : (size_t)op.attrl("cut", 0) % (curE.size() + 1);
             DecResult r = do_decode(curE.data(), cut, false);
             if(v.violated) break;
-            if(r.code == RC_WMORE) { st = S_PARTIAL; off = r.consumed; G.add("c14.fired.eof_before_end"); }
-            else st = S_DONE;
+            if(r.code == RC_WMORE && sy != SY_UPER) { st = S_PARTIAL; off = r.consumed; G.add("c14.fired.eof_before_end"); }
+            else { st = S_DONE; if(r.code == RC_WMORE) G.add("c14.fired.eof_before_end"); }     // UPER: a starved decode is final
         } else if(op.name == "decode-rest") {
             if(st != S_PARTIAL) continue;
             sy = cur_sy;
@@ -349,6 +349,7 @@ static std::vector<Op> gen_history(const Subject &s, Rng &r, const Bytes *other)
     auto enc_sy = [&]() { return ENC_SYNTAXES[r.below(5)]; };
     unsigned len = 2 + (unsigned)r.below(6);
     const bool has_lists = reaches_kind(s.td, K_SET_OF) || reaches_kind(s.td, K_SEQUENCE_OF);
+    const bool bulk_subject = s.value_spec.rfind("bulk:", 0) == 0;
     State st = s.caller_mode ? S_FRESH : S_NULL;
     bool have_slot = s.caller_mode;
     for(unsigned i = 0; i < len; i++) {
@@ -356,16 +357,16 @@ static std::vector<Op> gen_history(const Subject &s, Rng &r, const Bytes *other)
         if((st == S_PARTIAL || st == S_DONE) && has_lists && r.chance(1, 10)) { ops.push_back(mkop("listfree")); continue; }   // the application installs list.free
         if(st == S_NULL || st == S_FRESH) {
             if(c < 40 && !have.empty()) {
-                Syntax sy = pick_stream();
-                if(sy == SY_UPER) continue;
+                Syntax sy = r.chance(1, 6) && s.enc.count(SY_UPER) ? SY_UPER : pick_stream();
                 Op o = mkop("decode-prefix", {syntax_name(sy)}); o.attrs["cut"] = L((long)r.below(s.enc.at(sy).size() + 1));
-                ops.push_back(o); st = S_PARTIAL; have_slot = true;        // optimistic; interpreter skips if not enabled
+                // UPER is not restartable: a truncated UPER input is a complete (starved or failed) decode, nothing follows it
+                ops.push_back(o); st = sy == SY_UPER ? S_DONE : S_PARTIAL; have_slot = true;        // optimistic; interpreter skips if not enabled
             } else if(c < 65 && !have.empty()) {
                 Syntax sy = pick();
                 Bytes g = s.enc.at(sy); std::vector<std::string> ap;
                 Rng rr(r.next());
                 transport_damage(g, rr, other, ap, 1 + (unsigned)rr.below(3));
-                if(g.size() > 4096) g.resize(4096);
+                if(g.size() > (bulk_subject ? 100000u : 4096u)) g.resize(bulk_subject ? 100000u : 4096u);
                 Op o = mkop("decode-garbage", {syntax_name(sy)}); o.attrs["hex"] = to_hex(g);
                 ops.push_back(o); st = S_DONE; have_slot = true;
             } else if(!have.empty()) {
